@@ -10,6 +10,8 @@ import (
 	"sort"
 	"strings"
 	"sync"
+	"sync/atomic"
+	"time"
 )
 
 // Rng is splitmix64: every random choice of a run derives from VERIF_SEED.
@@ -30,7 +32,7 @@ func (r *Rng) Intn(n int) int {
 	}
 	return int(r.U64() % uint64(n))
 }
-func (r *Rng) Bool() bool       { return r.U64()&1 == 1 }
+func (r *Rng) Bool() bool        { return r.U64()&1 == 1 }
 func (r *Rng) Chance(p int) bool { return r.Intn(100) < p } // p percent
 func (r *Rng) Bytes(n int) []byte {
 	b := make([]byte, n)
@@ -55,25 +57,26 @@ type OracleFail struct {
 // Ctx collects the op lines, the implementation's canonical answers, oracle verdicts and
 // input-distribution counters of one stream run.
 type Ctx struct {
-	Stream   string
-	Property string
-	Tier     string
-	Seed     uint64
-	Rng      *Rng
-	outDir   string
-	mu       sync.Mutex
-	ops      *bufio.Writer
-	impl     *bufio.Writer
-	opsF     *os.File
-	implF    *os.File
-	n        int
-	distinct map[string]struct{}
-	nontriv  int
-	dist     map[string]int
-	samples  []string
-	fails    []OracleFail
-	notes    []string
-	exhaust  bool
+	Stream    string
+	Property  string
+	Tier      string
+	Seed      uint64
+	Rng       *Rng
+	outDir    string
+	mu        sync.Mutex
+	ops       *bufio.Writer
+	impl      *bufio.Writer
+	opsF      *os.File
+	implF     *os.File
+	n         int
+	distinct  map[string]struct{}
+	nontriv   int
+	dist      map[string]int
+	samples   []string
+	fails     []OracleFail
+	notes     []string
+	exhaust   bool
+	closeOnce sync.Once
 }
 
 func NewCtx(stream, property, tier string, seed uint64, outDir string) *Ctx {
@@ -142,6 +145,16 @@ func (c *Ctx) Fail(key, op, impl, what string) {
 		c.fails = append(c.fails, OracleFail{Property: c.Property, Stream: c.Stream, Key: key, Op: op, Impl: impl, What: what})
 	}
 	c.dist["oracle-fail"]++
+	if c.dist["oracle-fail"] == 300 && c.Tier != "replay" {
+		// nothing more to learn from this run, and a broken implementation can make every further
+		// operation very slow (giant allocations after a desynchronised stream)
+		go func() {
+			c.Note("stream stopped early after 300 oracle failures")
+			c.Close()
+			fmt.Printf("stream=%s stopped early after 300 oracle failures\n", c.Stream)
+			os.Exit(0)
+		}()
+	}
 }
 
 func (c *Ctx) Note(format string, args ...any) {
@@ -150,7 +163,11 @@ func (c *Ctx) Note(format string, args ...any) {
 	c.mu.Unlock()
 }
 
-func (c *Ctx) Close() {
+func (c *Ctx) Close() { c.closeOnce.Do(c.closeImpl) }
+
+func (c *Ctx) closeImpl() {
+	c.mu.Lock()
+	defer c.mu.Unlock()
 	// canary: the model answers "canary-model"; the differ must flag exactly this line.
 	c.ops.WriteString("canary\n")
 	c.impl.WriteString("canary-impl\n")
@@ -194,6 +211,41 @@ func unhx(s string) []byte {
 
 // safely runs f and converts a panic into an answer string (no operation may panic).
 func safely(f func() string) (ans string) {
+	if !guardOps {
+		return safelyInline(f)
+	}
+	// under a watchdog: an operation that does not return is a finding with a concrete input,
+	// not a reason for the whole stream to time out
+	done := make(chan string, 1)
+	go func() { done <- safelyInline(f) }()
+	timer := time.NewTimer(opTimeout)
+	defer timer.Stop()
+	select {
+	case ans = <-done:
+		return ans
+	case <-timer.C:
+		if atomic.AddInt32(&opHangs, 1) >= 3 && activeCtx != nil {
+			// the stuck goroutines cannot be stopped: report what was found so far and stop the stream
+			go func() {
+				time.Sleep(200 * time.Millisecond) // let the caller record this op's verdict
+				activeCtx.Note("stream stopped early: %d operations did not return within %v", atomic.LoadInt32(&opHangs), opTimeout)
+				activeCtx.Close()
+				fmt.Printf("stream=%s stopped early after hangs\n", activeCtx.Stream)
+				os.Exit(0)
+			}()
+		}
+		return fmt.Sprintf("PANIC hang: the operation did not return within %v", opTimeout)
+	}
+}
+
+var (
+	guardOps  = true
+	opTimeout = 20 * time.Second
+	opHangs   int32
+	activeCtx *Ctx
+)
+
+func safelyInline(f func() string) (ans string) {
 	defer func() {
 		if r := recover(); r != nil {
 			ans = fmt.Sprintf("PANIC %v", r)
